@@ -4,6 +4,7 @@ import (
 	"context"
 	"encoding/json"
 	"fmt"
+	"github.com/graphql-go/graphql/language/printer"
 	"reflect"
 	"strconv"
 	"strings"
@@ -81,13 +82,22 @@ type C20Exec struct {
 
 type C20Scn struct {
 	Req     int         `json:"req"`
-	Entry   string      `json:"entry"` // plan | cache | cache-norm | execute
+	Gen     *GenDoc     `json:"gen,omitempty"` // a generated document (gendoc.go) in place of the pool request
+	Entry   string      `json:"entry"`         // plan | cache | cache-norm | execute
 	Clients [][]C20Exec `json:"clients"`
 	Park    []string    `json:"park"`
 	Sticky  int         `json:"stickiness"`
 	// ExtPlan, when set, registers one instrumented extension whose hooks
 	// panic according to the plan (keys like "E1.RS@<path>")
 	ExtPlan map[string]string `json:"ext_plan,omitempty"`
+}
+
+// c20ReqOf is the request of a scenario: a pool request or the generated document.
+func c20ReqOf(sc *C20Scn) c20Req {
+	if sc.Gen == nil {
+		return c20Reqs[sc.Req]
+	}
+	return c20Req{Name: "generated", Query: sc.Gen.Query, Vars: []map[string]interface{}{normaliseJSONInts(sc.Gen.Vars).(map[string]interface{})}}
 }
 
 type c20 struct{}
@@ -102,12 +112,14 @@ var c20AllPark = []string{"resolver", "rtype", "plan.exec.start", "plan.exec.sen
 // c20Paths returns the resolver paths of the fault-free solo run (for fault placement).
 var c20PathCache = map[string][]string{}
 
-func c20Paths(req int, vars int, variant uint64) []string {
-	key := fmt.Sprintf("%d/%d/%d", req, vars, variant)
+func c20Paths(rq c20Req, vars int, variant uint64) []string {
+	key := fmt.Sprintf("%s/%d/%d", rq.Query, vars, variant)
 	if p, ok := c20PathCache[key]; ok {
 		return p
 	}
-	rq := c20Reqs[req]
+	if len(c20PathCache) > 5000 {
+		c20PathCache = map[string][]string{}
+	}
 	w := NewWorld("A")
 	rc := &ReqCtx{Task: "dry", W: w, Variant: variant}
 	var vs map[string]interface{}
@@ -126,6 +138,11 @@ func (p c20) Gen(seed uint64, enum int, tier string) json.RawMessage {
 	s.Entry = []string{"plan", "plan", "cache", "cache-norm", "execute"}[r.Intn(5)]
 	nc := 1 + r.Intn(3)
 	rq := c20Reqs[s.Req]
+	if r.Chance(35) {
+		gd := GenQueryDoc(r, c04GenWorld(), 6+r.Intn(25), true)
+		s.Gen = &gd
+		rq = c20ReqOf(&s)
+	}
 	for c := 0; c < nc; c++ {
 		var execs []C20Exec
 		for n := 1 + r.Intn(3); n > 0; n-- {
@@ -134,7 +151,7 @@ func (p c20) Gen(seed uint64, enum int, tier string) json.RawMessage {
 				e.Vars = r.Intn(len(rq.Vars))
 			}
 			if r.Chance(45) {
-				paths := c20Paths(s.Req, e.Vars, e.Variant)
+				paths := c20Paths(rq, e.Vars, e.Variant)
 				e.Faults = map[string]string{}
 				for k := 1 + r.Intn(3); k > 0 && len(paths) > 0; k-- {
 					e.Faults["R@"+paths[r.Intn(len(paths))]] = []string{FHostile, FHostile, FHostileVars, FThunk}[r.Intn(4)]
@@ -145,7 +162,7 @@ func (p c20) Gen(seed uint64, enum int, tier string) json.RawMessage {
 		s.Clients = append(s.Clients, execs)
 	}
 	if r.Chance(25) {
-		paths := c20Paths(s.Req, 0, 0)
+		paths := c20Paths(rq, 0, 0)
 		s.ExtPlan = map[string]string{}
 		if len(paths) > 0 && r.Chance(70) {
 			s.ExtPlan["E1."+[]string{"RS", "RE"}[r.Intn(2)]+"@"+paths[r.Intn(len(paths))]] = []string{"error", "string"}[r.Intn(2)]
@@ -194,6 +211,8 @@ func (c20) Shrink(scn json.RawMessage) []json.RawMessage {
 
 // c20State is what one execution may legitimately be told.
 type c20State struct {
+	query  string
+	vtypes map[string]string
 	w       *World
 	root    Tok
 	doc     *ast.Document // nil when the document the plan was built from is not the caller's (normalising cache)
@@ -353,6 +372,13 @@ func (st *c20State) check(rc *ReqCtx, p *graphql.ResolveParams, path string) {
 			if !has {
 				continue
 			}
+			if st.query != "" {
+				switch st.varTypes()[vr.Name.Value] {
+				case "Int", "String", "Boolean":
+				default:
+					continue // enum names, custom scalars, IDs coerce to other values
+				}
+			}
 			switch supplied.(type) {
 			case int, string, bool:
 				if got := p.Args[a.Name.Value]; got != supplied && got != "POISON" && !(fmt.Sprint(got) == "POISON"+strconv.Itoa(rc.Req)+rc.Task) {
@@ -404,8 +430,14 @@ func (st *c20State) requestLevel(bad func(string, ...interface{}), info graphql.
 	if info.Schema.QueryType() != st.w.Obj["Query"] {
 		bad("Info.Schema is not the schema the request runs against")
 	}
-	// supplied plain values coerce to themselves
+	// supplied plain values of the built-in scalar types coerce to themselves
+	varType := st.varTypes()
 	for name, supplied := range st.vars {
+		switch varType[name] {
+		case "Int", "String", "Boolean":
+		default:
+			continue
+		}
 		switch supplied.(type) {
 		case int, string, bool:
 			got, ok := info.VariableValues[name]
@@ -417,6 +449,34 @@ func (st *c20State) requestLevel(bad func(string, ...interface{}), info graphql.
 			}
 		}
 	}
+}
+
+// varTypes gives the declared type (without "!") of the operation's variables
+// (from the request text: the cache entries parse it themselves).
+func (st *c20State) varTypes() map[string]string {
+	if st.vtypes != nil {
+		return st.vtypes
+	}
+	st.vtypes = map[string]string{}
+	doc, err := parseDoc(st.query)
+	if err != nil {
+		return st.vtypes
+	}
+	for _, def := range doc.Definitions {
+		if op, ok := def.(*ast.OperationDefinition); ok {
+			for _, vd := range op.GetVariableDefinitions() {
+				if vd != nil && vd.Variable != nil && vd.Variable.Name != nil && vd.Type != nil {
+					st.vtypes[vd.Variable.Name.Value] = strings.Trim(fmt.Sprint(printer.Print(vd.Type)), "!")
+				}
+			}
+		}
+	}
+	return st.vtypes
+}
+
+func (st *c20State) withQuery(q string) *c20State {
+	st.query = q
+	return st
 }
 
 // checkInfo is installed as ReqCtx.CheckInfo: the info that type resolvers,
@@ -467,12 +527,11 @@ func c20World(extPlan map[string]string) *World {
 	return NewWorld("A", &SimExt{N: "E1", R: &ExtRun{Plan: extPlan, HasResult: map[string]bool{}}})
 }
 
-func c20RunSolo(req int, e C20Exec, ord int, task string, extPlan map[string]string) c20Solo {
-	rq := c20Reqs[req]
+func c20RunSolo(rq c20Req, e C20Exec, ord int, task string, extPlan map[string]string) c20Solo {
 	w := c20World(extPlan)
 	doc, _ := parseDoc(rq.Query)
 	root := Tok{T: c07Root(rq.Query), P: "", R: ord}
-	st := newC20State(w, doc, root, rq.Occ)
+	st := newC20State(w, doc, root, rq.Occ).withQuery(rq.Query)
 	rc := &ReqCtx{Task: task, Req: ord, W: w, Variant: e.Variant, Faults: e.Faults, RootTok: root}
 	rc.Check = st.check
 	rc.CheckInfo = st.checkInfo
@@ -573,8 +632,8 @@ func (c20) Run(t TestingT, scn json.RawMessage, tape *Tape) *Outcome {
 		return &Outcome{Infra: "bad scenario: " + err.Error()}
 	}
 	o := &Outcome{}
-	rq := c20Reqs[sc.Req]
-	if sc.Req == 0 {
+	rq := c20ReqOf(&sc)
+	if sc.Req == 0 && sc.Gen == nil {
 		// (piggy-backed on one request of the pool: a fixed-input check)
 		c20SubscribeParams(o)
 	}
@@ -590,7 +649,7 @@ func (c20) Run(t TestingT, scn json.RawMessage, tape *Tape) *Outcome {
 	}
 	solo := map[int]c20Solo{}
 	for _, sl := range slots {
-		solo[sl.ord] = c20RunSolo(sc.Req, sc.Clients[sl.ci][sl.ei], sl.ord, fmt.Sprintf("c%d", sl.ci+1), sc.ExtPlan)
+		solo[sl.ord] = c20RunSolo(rq, sc.Clients[sl.ci][sl.ei], sl.ord, fmt.Sprintf("c%d", sl.ci+1), sc.ExtPlan)
 	}
 
 	s := NewSim(tape)
@@ -647,12 +706,12 @@ func (c20) Run(t TestingT, scn json.RawMessage, tape *Tape) *Outcome {
 					var res *graphql.Result
 					switch sc.Entry {
 					case "plan":
-						st := newC20State(w, doc, root, rq.Occ).withVars(vs)
+						st := newC20State(w, doc, root, rq.Occ).withVars(vs).withQuery(rq.Query)
 						rc.Check, rc.CheckInfo = st.check, st.checkInfo
 						res = graphql.ExecutePlan(plan, graphql.ExecuteParams{Schema: w.Schema, Root: root, Args: vs, Context: ctx})
 					case "cache", "cache-norm":
 						// the cache parses the text itself: occurrences are nodes of its own document
-						st := newC20State(w, nil, root, rq.Occ).withVars(vs)
+						st := newC20State(w, nil, root, rq.Occ).withVars(vs).withQuery(rq.Query)
 						rc.Check, rc.CheckInfo = st.check, st.checkInfo
 						pr := cache.Get(&w.Schema, rq.Query, "")
 						if pr.Plan == nil {
@@ -661,7 +720,7 @@ func (c20) Run(t TestingT, scn json.RawMessage, tape *Tape) *Outcome {
 							res = graphql.ExecutePlan(pr.Plan, graphql.ExecuteParams{Schema: w.Schema, Root: root, Args: mergeArgs(vs, pr.SynthArgs), Context: ctx})
 						}
 					default:
-						st := newC20State(w, doc, root, rq.Occ).withVars(vs)
+						st := newC20State(w, doc, root, rq.Occ).withVars(vs).withQuery(rq.Query)
 						rc.Check, rc.CheckInfo = st.check, st.checkInfo
 						res = graphql.Execute(graphql.ExecuteParams{Schema: w.Schema, Root: root, AST: doc, Args: vs, Context: ctx})
 					}
